@@ -2,6 +2,7 @@ import Pms.Props.Extra
 import Pms.Props.Filon
 import Pms.Props.WaveX
 import Pms.Props.Pack
+import Pms.Props.Voropp
 
 #print axioms Pms.Extra.E_lines_intersection
 #print axioms Pms.Extra.E_lines_parallel
@@ -35,3 +36,10 @@ import Pms.Props.Pack
 #print axioms Pms.Pack.E_pack_nonneg
 #print axioms Pms.Pack.E_pack_cos
 #print axioms Pms.Pack.E_pack_ideal_zero
+#print axioms Pms.Voropp.E_walls_refines
+#print axioms Pms.Voropp.E_walls_no_wall
+#print axioms Pms.Voropp.E_walls_counts
+#print axioms Pms.Voropp.E_walls_area
+#print axioms Pms.Voropp.E_his_rows
+#print axioms Pms.Voropp.E_his_total
+#print axioms Pms.Voropp.E_his_sorted
